@@ -16,7 +16,9 @@ driven through the REAL APK.get_certificate_der on a real APK object whose get_f
 zip layer: one zip parse per shard instead of one per mutant); one value (^01) per fault site is ALSO pushed through the full
 path (zip rebuilt by stdlib zipfile -> APK(raw) -> get_certificate_der, get_certificates_v1) and both paths must agree.
 Structural variants (full path, minSdk absent / 23 / 24): unrelated certificate first in the bag; SignerInfo referencing
-certificate A while signed with key B (same and different key type, A in / not in the bag); two SignerInfos (bad,good /
+certificate A while signed with key B (same and different key type, A in / not in the bag); the reference's serial INTEGER as {+1, negated, top
+byte replaced, extra top byte, leading 00 dropped (sign flip), 0xff prefixed, extra leading 00 (equal value: observed only)} for a
+certificate whose serial needs the DER sign octet and one whose serial does not; two SignerInfos (bad,good /
 good,bad / bad-signature,good); signed attributes whose messageDigest is right but the signature is over the .SF; signed
 attributes with the digest of other content; signed attributes whose messageDigest has the wrong LENGTH (empty, 1 / n-1 byte prefix
 of the correct and of a wrong digest, correct digest + 1 byte; signature valid over them; genuine and altered .SF); signedAttrs stored
@@ -329,7 +331,7 @@ def full_obs(art, replace=None, alt=True):
 
 def who(der):
     from gen import apkgen as G
-    for n in G.KEY_NAMES:
+    for n in G.CERT_NAMES:
         if der == G.cert_der(n):
             return "the certificate of test key '%s'" % n
     return "an unknown certificate (%d bytes)" % len(der)
@@ -428,6 +430,27 @@ def variants(kind, alg, attrs):
         "two-si-badsig-good": (lambda sf: G.pkcs7([flip_signature(S(sf)), S(sf)], [kind], [alg]), ("only", kind)),
         "declared-digest-differs": (lambda sf: G.pkcs7([S(sf, declare_alg=[x for x in ALGS if x != alg][0])], [kind], [alg]), ("nocert",)),
     }
+    # signer reference: the serial INTEGER of issuerAndSerialNumber in other encodings / values, for a certificate whose serial
+    # needs no sign octet (low: the ordinary test certificate) and one whose serial has the top bit set (high: <kind>9, same key).
+    # Expectation by VALUE: a reference whose integer value differs from the certificate's must not select it.
+    for cls, cn in (("low", kind), ("high", kind + "9")):
+        so = G.serial_octets(cn)
+        val = int.from_bytes(so, "big", signed=True)
+        n = len(so)
+        enc = {"plus-1": ((val + 1).to_bytes(n, "big", signed=True), ("nocert",)),
+               "negative-same-magnitude": ((-val).to_bytes(n, "big", signed=True), ("nocert",)),
+               "top-byte-replaced": (so[:n - 5] + bytes([so[n - 5] ^ 0x01]) + so[n - 4:], ("nocert",)),
+               "extra-top-byte-01": (b"\x01" + so[-5:], ("nocert",)),
+               # non-minimal DER, EQUAL value: not fixed by the statement -> observed and counted only
+               "extra-leading-00": (b"\x00" + so, ("observe",))}
+        if cls == "high":
+            enc["exact"] = (so, ("exact", cn))
+            enc["leading-00-dropped"] = (so[1:], ("nocert",))           # c8.. instead of 00 c8..: a negative, different integer
+        else:
+            enc["ff-prefixed"] = (b"\xff" + so, ("nocert",))            # value - 2^40: different integer
+        for name, (octets, exp) in enc.items():
+            v["serial:%s:%s" % (cls, name)] = (
+                (lambda sf, cn=cn, octets=octets: G.pkcs7([G.signer_info_with_serial(sf, cn, alg, attrs, octets)], [cn], [alg])), exp)
     if attrs:
         v["attrs-ok-but-signature-over-sf"] = (lambda sf: G.pkcs7([S(sf, sign_over="sf")], [kind], [alg]), ("nocert",))
         v["attrs-digest-of-other-content"] = (lambda sf: G.pkcs7([S(sf, attr_digest_of=b"other content")], [kind], [alg]), ("nocert",))
@@ -575,7 +598,7 @@ def space(ctx):
                                                 "signed-attrs": f["signed-attrs"][1], "sid": f["sid"][1]},
             "full_path_binding": "every fault site of every artefact x value ^01 through zipfile -> APK(raw)",
             "structural_variants_built": "11 per (key, digest) without signed attributes, 29 with (13 + 6 wrong-length messageDigest "
-                                         "kinds x {genuine, altered .SF} + 4 BER-length signedAttrs), each + 48 entry-order variants, x minSdk %r" % (STRUCT_MINSDK,),
+                                         "kinds x {genuine, altered .SF} + 4 BER-length signedAttrs), each + 13 serial-reference variants + 48 entry-order variants, x minSdk %r" % (STRUCT_MINSDK,),
             "messageDigest_kinds": sorted(MD_KINDS),
             "structural_variants": sorted(variants("rsa", "sha256", True)) + ["second-block-corrupt"],
             "entry_order_variants": "all 24 orders of the 4 zip entries x central directory same / reversed = %d per combination and minSdk"
@@ -598,7 +621,7 @@ def run_shard(ctx, shard):
                 acc.case(nontrivial=("struct", kind, alg, attrs, minsdk, name), outcome=("struct", name, cls))
                 acc.count("structural_variants")
                 acc.count("structural_variants_minsdk_%s" % minsdk)
-                if name.startswith("signed-attrs-ber-length") and name.endswith("sig-over-stored"):
+                if name.startswith("signed-attrs-ber-length") and name.endswith("sig-over-stored") or name.endswith("extra-leading-00"):
                     acc.count("observed:%s:%s" % (name, cls))
                 if name.startswith("two-si"):
                     acc.count("observed:%s:minsdk%s:%s" % (name, ">=24" if (minsdk or 0) >= 24 else "<24", cls))
@@ -696,7 +719,7 @@ def finalize(ctx, acc):
             acc.harness_error("no .SF site was enumerated with the 255-value alphabet")
         if ctx.thorough and (acc.extra.get("sites_sf_x8") or acc.extra.get("sites_signature_x8")):
             acc.harness_error("thorough tier must use the 255-value alphabet on every .SF and signature byte")
-    nstruct = sum((29 + len(ORDER_NAMES) if at else 11 + len(ORDER_NAMES)) for k, a, at, ms in configs() if ms is None) * len(STRUCT_MINSDK)
+    nstruct = sum((42 + len(ORDER_NAMES) if at else 24 + len(ORDER_NAMES)) for k, a, at, ms in configs() if ms is None) * len(STRUCT_MINSDK)
     if acc.extra.get("structural_variants") != nstruct:
         acc.harness_error("structural variants built: %r, stated: %d" % (acc.extra.get("structural_variants"), nstruct))
     for ms in STRUCT_MINSDK:
